@@ -568,7 +568,41 @@ pub fn program(n_defs: std::ops::Range<usize>, o: DefOpts) -> BoxedStrategy<Prog
 
 /// programs without definitions: built-in type expressions only (C04)
 pub fn builtin_program(enc: bool) -> BoxedStrategy<Program> {
-    vec(te(3, enc, true, vec![]), 1..6).prop_map(|roots| Program { defs: vec![], roots }).boxed()
+    (vec(te(3, enc, true, vec![]), 1..6), any::<u16>(), 0u8..3)
+        .prop_map(|(mut roots, k, twin)| {
+            // in a third of the programs one root is followed by its "alias twin": the same
+            // expression with a transparent Box around one inner type - a different Rust type whose
+            // definition is identical once the pointer has been resolved - and by a further type,
+            // so that the two meet in one registry and something is numbered after them
+            if twin == 0 {
+                let i = vcore::runner::pick(k, roots.len());
+                if let Some(t) = alias_twin(&roots[i]) {
+                    roots.insert(i + 1, t);
+                    if i + 2 == roots.len() {
+                        roots.push(TE::Tuple(vec![TE::U(16), TE::Option(Box::new(TE::U(64)))]));
+                    }
+                }
+            }
+            Program { defs: vec![], roots }
+        })
+        .boxed()
+}
+
+/// the same type expression with a `Box` around the element / first member / payload
+pub fn alias_twin(t: &TE) -> Option<TE> {
+    let bx = |a: &TE| Box::new(TE::Box(Box::new(a.clone())));
+    Some(match t {
+        TE::Vec(a) => TE::Vec(bx(a)),
+        TE::VecDeque(a) => TE::VecDeque(bx(a)),
+        TE::Array(a, n) => TE::Array(bx(a), *n),
+        TE::Option(a) => TE::Option(bx(a)),
+        TE::Tuple(v) if !v.is_empty() => {
+            let mut v = v.clone();
+            v[0] = TE::Box(Box::new(v[0].clone()));
+            TE::Tuple(v)
+        }
+        _ => return None,
+    })
 }
 
 pub fn entropies(n: usize) -> BoxedStrategy<Vec<Vec<u8>>> {
